@@ -43,3 +43,32 @@ def check_c20(tier, replay=None):
                                   'references searched on the real object graph; python_types output of the filtered Api imported')
     rep.assumptions = ['TLC 1.8; harness/wlcheck.py render_spec']
     return rep.finish()
+
+
+CLI_INVS = ['Precedence', 'OuterParensNeutral', 'AbsentIsNull', 'ErrorsNotIgnored', 'NamespacesKeepOnlySelected']
+
+
+def check_c19(tier, replay=None):
+    from clicheck import CliJudge
+    if replay:
+        return _simple_replay('C19', CliJudge, replay)
+    rep = Report('C19', tier)
+    ma = 3 if tier == 'quick' else 4
+    jobs = [('filter', s) for s in range(12)] + [('prune', 0)]
+    res = run_shards('StoneCli',
+                     lambda j: dict(spec='Spec', constants={'Shard': j[1], 'NShards': 12 if j[0] == 'filter' else 1,
+                                                            'EmitVectors': True, 'MaxAtoms': ma if j[0] == 'filter' else 0,
+                                                            'Mode': '"%s"' % j[0]},
+                                    invariants=CLI_INVS, constraints=['Emit', 'InShard']),
+                     jobs, 'clicheck.CliJudge', {}, tlc_kwargs={'timeout': 6000})
+    agg = merge(res)
+    rep.add_tlc('StoneCli', agg, {'MaxAtoms': ma, 'atoms': 12, 'routes': 8})
+    rep.add_judged(agg)
+    rep.exhaustive = True
+    rep.coverage_extra['rule'] = ('every filter string atom (and|or atom)* of <= %d atoms (12 atoms over 5 attributes incl. an undeclared one and '
+                                  'literals of every kind; 4 core atoms beyond two) with one optional parenthesised sub-range, plus every '
+                                  'single-token deletion (malformed); every subset of known/unknown namespaces for -w and -b, every subset of '
+                                  'known/unknown attributes and :all for -a around 3 fixed filters; each run through stone.cli.main with a '
+                                  'recording backend on a 4-namespace spec with 8 routes covering all value combinations' % ma)
+    rep.assumptions = ['TLC 1.8; harness/clicheck.py render_expr and the fixed spec mirrored in StoneCli!RouteList']
+    return rep.finish()
